@@ -258,6 +258,25 @@ def run(facts, rep, ctx):
             rep.ok(R4, {"success_paths": n_ok, "labels_required": ["Count", "Info"]})
     except PathLimit:
         rep.inconc(R4, "arc::from_bytes: too many paths")
+    # the body address (record offset + header padding) must not silently lose bits: a narrowing cast of a value that
+    # can exceed the target type turns an out-of-range record into an in-range one
+    try:
+        import c05 as _c05
+        P_ = _c05.Prov(b)
+        trunc = None
+        n_casts = 0
+        for bi_, si_, st_ in b.stmts():
+            if st_["k"] == "assign" and st_["rv"]["k"] == "cast" and st_["rv"].get("ty") in ("u32", "u16", "u8") and st_["rv"].get("from") in ("usize", "u64", "u128", "i64"):
+                t_ = b.term_of_operand(st_["rv"]["a"])
+                lo_, hi_, tags_ = P_.of(t_, st_["rv"].get("from"))
+                r_ = _c05.ty_range(st_["rv"]["ty"])
+                n_casts += 1
+                if "input" in tags_ and hi_ > r_[1] and any(x[0] == "bin" and x[1].startswith("Add") for x in walk(t_)):
+                    trunc = (fmt(t_)[:70], st_["rv"]["ty"], hi_, st_.get("line"))
+        if trunc:
+            rep.violation(R1, b.name, "address-truncated", "the sum %s (up to %#x) is cast to %s: a record offset near the integer limit wraps to a small address inside the data region instead of being reported as out of range" % (trunc[0], trunc[2], trunc[1]), "%s:%s" % (b.file, trunc[3]))
+    except Exception:
+        pass
     R6 = rep.rule("R16.6", "a record is rejected only when its range leaves the data region (explicit rejections evaluated at class representatives)", floor=1)
     extraction_rejections(facts, rep, R6, b, where)
     # ---- R16.5 empty bodies ----------------------------------------------------------------------------
